@@ -13,7 +13,7 @@ VERIF = os.path.dirname(os.path.dirname(os.path.abspath(__file__)))
 def main(argv):
     sys.path.insert(0, VERIF)
     from selftest.mutants import MUTANTS
-    names = [n for n in MUTANTS if not argv or any(a in n for a in argv)]
+    names = [n for n in MUTANTS if (not argv and MUTANTS[n][1] is not None) or any(a in n for a in argv)]
     out = []
     ok_all = True
     for n in names:
@@ -24,7 +24,7 @@ def main(argv):
         dt = time.time() - t0
         viol = [l for l in cp.stdout.splitlines() if l.startswith('violation ') or l.startswith('VIOLATION')]
         caught = (cp.returncode == 1) and any(l.startswith('VIOLATION') for l in viol)
-        ok = (caught == expect) and cp.returncode in (0, 1)
+        ok = ((caught == expect) and cp.returncode in (0, 1)) if expect is not None else (cp.returncode == 2 and dt < 400)
         ok_all &= ok
         oracles = sorted({l.split('oracle=')[1].split()[0] + ':' + l.split('api=')[1].split()[0] for l in viol if l.startswith('violation ')})
         print(f"{'OK  ' if ok else 'FAIL'} {n:42s} {prop} expect={'caught' if expect else 'clean '} got exit={cp.returncode} {dt:5.1f}s {oracles}", flush=True)
